@@ -20,7 +20,7 @@ func init() { reg.Register("C12", "exploration", Run) }
 func Run(c *ev.Ctx) int {
 	c.Assume("positive oracle: for a legal stream every fragmentation x buffer schedule must end in io.EOF with exactly the payload")
 	c.Assume("negative oracle: a bad stream may end in io.EOF only with exactly the payload; streams whose defect is a wrong chunk signature, seed signature, trailing checksum (value or announced algorithm) or trailer signature must be rejected outright")
-	c.Assume("mutations that may leave the meaning intact (hex case, blanks, leading zeros of a size, extra data after the closing CRLF, a cut inside the closing framing) are judged leniently and listed as observations when accepted")
+	c.Assume("mutations that may leave the meaning intact (hex case, blanks, leading zeros of a size, extra data after the closing CRLF, a cut inside the closing framing) are judged leniently and listed as observations when accepted; a changed byte in the CR LF that ends a chunk header is not among them")
 	c.Assume("direct lane: payloads <= 256 KiB, destination buffers 1 B .. 1 MiB, wire chunk sizes that would make the reader allocate more than 64 MiB are not generated")
 	finishRule = "lane A: utils.NewSignedChunkReader / NewUnsignedChunkReader / NewChunkReader over a fragmenting io.Reader shim; legal streams (3 modes x 5 checksum algorithms x chunk-size sequences incl. 1-byte chunks) under exhaustive single cuts and header-pair cuts (short streams), boundary-biased PRNG cuts, aligned cuts, fixed-size fragments and 12 buffer sizes + varying schedules; bad streams: every single-byte mutation and truncation point of short streams plus named defects. lane B: chunked PUT with chosen socket write sizes, GET back; corrupted streams must be refused and leave the key unchanged. distinct = (lane, mode, algorithm, chunk-sequence class, fragmentation class, buffer class) resp. (mode, defect kind, stream region, fragmentation class)"
 	// lanes: A (direct constructors), A2 (through utils.NewChunkReader), B (end to end); a replay runs only its lane
